@@ -7,6 +7,7 @@ import (
 	"hash/fnv"
 	"math"
 	"reflect"
+	"regexp"
 
 	"github.com/shiwano/errdef"
 	"github.com/shiwano/errdef/unmarshaler"
@@ -151,6 +152,9 @@ func runC12(d c12Desc) []Case {
 	if d.Lib && d.Case.Cfg.Default != nil {
 		first.Tags = append(first.Tags, "default-resolver-kindless-cause")
 	}
+	if d.Lib && d.Case.Cfg.Strict && nullField.MatchString(d.Case.Bytes) {
+		first.Tags = append(first.Tags, "null-valued-field-in-library-document")
+	}
 	if docHasValue(d.Case.Doc, "fmaxf32") || docHasValue(d.Case.Doc, "f-maxf32") {
 		first.Tags = append(first.Tags, "float32-maxfloat32-roundtrip")
 	}
@@ -162,6 +166,9 @@ func runC12(d c12Desc) []Case {
 	}
 	return out
 }
+
+// a field member whose value is null, inside a "fields" object
+var nullField = regexp.MustCompile(`"fields":\{[^{}]*"[^"]*":null`)
 
 func umValueIndex(name string) int {
 	for i, v := range umValues {
